@@ -483,7 +483,14 @@ def make_loop_handler(invariants=None):
                 out.append(s)            # return / raise inside the loop
             elif inv is not None:
                 e1 = dict(s.env); e1['#iter'] = cnt + 1
-                oblige(ex, s, n, 'invariant', f'{sig}: invariant preserved', inv(e1, ex, s))
+                f1 = inv(e1, ex, s)
+                parts = _conjuncts(f1)
+                if len(parts) <= 3:
+                    oblige(ex, s, n, 'invariant', f'{sig}: invariant preserved', f1)
+                else:
+                    # a long conjunction is proved conjunct by conjunct (smaller queries); each proved conjunct is then available
+                    for pi, part in enumerate(parts):
+                        oblige(ex, s, n, 'invariant', f'{sig}: invariant preserved [conjunct {pi + 1}/{len(parts)}]', part)
         names = reduced
         # after the loop: havoc state with invariant at count iterations
         after = st.fork(); after.approx = True
@@ -509,6 +516,15 @@ def make_loop_handler(invariants=None):
         out.append(after)
         return out
     return handler
+
+
+def _conjuncts(f):
+    if is_z(f) and z3.is_and(f):
+        out = []
+        for ch in f.children():
+            out += _conjuncts(ch)
+        return out
+    return [f]
 
 
 def it_rev(it):
